@@ -1,5 +1,5 @@
 (** C10 — pinned statements. Nothing but statements, [exact], and assumption audits. *)
-From TU Require Import Base C10_Model C10_Proofs.
+From TU Require Import Base C10_Model C10_Proofs C10_Inj.
 
 (** Round trip: clean [from], [to] with equal non-whitespace clusters. *)
 Theorem ops_roundtrip : forall f t : list cluster,
@@ -7,6 +7,14 @@ Theorem ops_roundtrip : forall f t : list cluster,
   exists ops, operations f t = Some ops /\ length ops = length f /\ repair f ops = Some (concat t).
 Proof. exact ops_roundtrip_l. Qed.
 Print Assumptions ops_roundtrip.
+
+(** The other half of "inverse": for a fixed clean source the operation list determines the target text
+    (two clean targets with the same non-whitespace clusters and the same operations are the same text). *)
+Theorem operations_injective : forall f t t' ops,
+  Clean f -> Clean t -> Clean t' -> strip f = strip t -> strip f = strip t' ->
+  operations f t = Some ops -> operations f t' = Some ops -> concat t = concat t'.
+Proof. exact operations_injective_l. Qed.
+Print Assumptions operations_injective.
 
 (** Whenever [operations] succeeds there is exactly one operation per character of [from]. *)
 Theorem ops_length : forall f t ops, operations f t = Some ops -> length ops = length f.
